@@ -29,7 +29,7 @@ def main():
             cov = ev["coverage"]
             if cov.get("failed") or cov.get("undecided"):
                 continue
-            base.setdefault(ev["property_id"], {})[ev["tier"]] = {"obligations": cov["obligations"], "tasks": cov["shapes_run"]}
+            base.setdefault(ev["property_id"], {})[ev["tier"]] = {"obligations": cov["obligations"], "tasks": cov.get("sym_tasks", 0)}
         json.dump(base, open(path, "w"), indent=1, sort_keys=True)
         print("baseline updated for", sorted(base))
         return 0
